@@ -135,7 +135,8 @@ def via_registry(c):
                 d.op(op="r_clear", id=op["sid"])
             d.ops.append(twin)
         elif o == "search":
-            d.search(1000 + op["sid"], op["q"], tag="sa%d" % op["sid"], want=["qtok"], rep=1)
+            keep = [w for w in op.get("want", []) if w in ("singles", "unlimited")]
+            d.search(1000 + op["sid"], op["q"], tag="sa%d" % op["sid"], want=["qtok"] + keep, rep=1)
             d.op(op="r_search", id=op["sid"], q=op["q"], **({"expect": op["expect"]} if "expect" in op else {}))
         else:
             return None          # a case with steps the top-level API does not have
@@ -512,6 +513,16 @@ def gen_store_relations(prop, lang, rnd, titles, toks, ncases, big=False):
             recs = [" ".join(rnd.sample(voc, rnd.randint(1, len(voc)))) for _ in range(n)]
         else:
             recs = [rnd.choice(titles) for _ in range(n)]
+        twice = None
+        multi = [t for t in recs if sum(1 for x in t.split() if len(x) >= 6 and x.isalnum()) >= 2]
+        if multi and not big and rnd.random() < 0.35:
+            # the same product listed a second and third time with its words in another order
+            twice = rnd.choice(multi)
+            for _r in range(rnd.randint(1, 2)):
+                ws_ = twice.split()
+                rnd.shuffle(ws_)
+                recs.insert(rnd.randint(0, len(recs)), " ".join(ws_))
+            n = len(recs)
         c = Case(prop, "relations", lang=lang)
         sid = c.new_store(lang)
         rt = distinct_ratings(rnd, n, hi=2 ** 31 - 1 if rnd.random() < 0.2 else 1000)
@@ -527,6 +538,16 @@ def gen_store_relations(prop, lang, rnd, titles, toks, ncases, big=False):
         if shorts and longs:
             lw = rnd.choice(longs)
             qs.append(rnd.choice(shorts) + " " + lw[:max(2, len(lw) // 2 - 1)])
+            # several half-typed long words, each finished by a blank (they match nothing as whole words, yet their records
+            # share many grams with the query), and one short word that is a real hit sharing few grams
+            halves = [x[:max(3, len(x) // 2)] for x in rnd.sample(longs, min(len(longs), rnd.randint(2, 3)))]
+            qs.append(" ".join(halves) + " " + rnd.choice(shorts))
+        if twice and shorts:
+            # the long words of the product listed several times, each half-typed and finished, then a short word of
+            # another record: many strong candidates that are no hits, one weak candidate that is
+            lw2 = [x for x in twice.split() if len(x) >= 6 and x.isalnum()]
+            qs.append(" ".join(x[:max(3, len(x) // 2)] for x in lw2) + " " + rnd.choice(shorts))
+            qs.append(" ".join(x[:4] for x in lw2[:3]) + " " + rnd.choice(shorts))
         if big:
             rare = [x for t in recs for x in t.split() if x.lower() != w.lower() and len(x) >= 3]
             qs = [w, w[:3]] + qs[:1] + ([w + " " + rnd.choice(rare), rnd.choice(rare) + " " + w] if rare else [])
@@ -562,6 +583,13 @@ def gen_histories(prop, lang, rnd, titles, toks, ncases, length=14, adversarial=
         sid = c.new_store(lang, markers=(SENT_L, SENT_R) if rnd.random() < 0.7 else None)
         held = []
         nid = 1
+        # a second store of the same language lives on the same thread, holds other records and is asked the same inputs
+        # right after the first (scratch state and anything remembered per thread is shared between stores)
+        sid_b = None
+        if rnd.random() < 0.3:
+            sid_b = c.new_store(lang, markers=(SENT_L, SENT_R))
+            for j in range(rnd.randint(1, 4)):
+                c.add(sid_b, 500 + j, rnd.choice(titles), rnd.randint(0, 1000))
         # three regimes: default limit; a small limit that the store soon exceeds; many records sharing a word
         # under a limit of 1-2 (more than 10 x limit candidates, so the index cap and the chunked selection matter)
         regime = case_no % 3
@@ -649,6 +677,8 @@ def gen_histories(prop, lang, rnd, titles, toks, ncases, length=14, adversarial=
                 else:
                     q = random_query(lang, rnd, [h[0] for h in held], toks)
                 c.search(sid, q, want=["qtok", "fresh"], repeat=2)
+                if sid_b is not None and rnd.random() < 0.6:
+                    c.search(sid_b, q, want=["qtok", "fresh"])
         cases.append(c)
     return cases
 
@@ -1396,7 +1426,12 @@ def gen_registry_cases(rnd, ncases, pools, toks, length=30):
                 c.op(op="add", sid=1007, id=nrid, title=cps(t), rating=nrid)
                 live[7]["titles"].append(t)
                 nrid += 1
-            for lim, q in ((rnd.choice([12, 15]), shared), (None, rare), (rnd.choice([25, 40]), shared), (3, shared), (11, shared[:2])):
+            plan7 = [(rnd.choice([12, 15]), shared), (None, rare), (rnd.choice([25, 40]), shared), (3, shared), (11, shared[:2])]
+            if rnd.random() < 0.5:
+                # limits so small that the candidate cap (10 x limit) cuts the matching records off, then other inputs
+                plan7 = [(rnd.choice([1, 2]), shared), (None, rare[:1]), (None, rare), (None, rare[:2]), (1, shared[:3]), (None, rare[:1]),
+                         (None, shared + " " + rare), (None, rare[:1])] + plan7
+            for lim, q in plan7:
                 if lim is not None:
                     c.op(op="r_limit", id=7, limit=lim)
                     c.op(op="limit", sid=1007, limit=lim)
@@ -1554,6 +1589,10 @@ def gen_table_store_cases(lang, rnd, prop="C02"):
             c.add(sid, 100 + j, t, j)
             qs.append(cps("ta") + b)
             qs.append(cps("ta"))
+            # the shortest texts there are: the entry alone as a whole title, and with one letter before / after it
+            c.add(sid, 200 + j, a, j)
+            c.add(sid, 300 + j, a + cps("x") if j % 2 else cps("x") + a, j)
+            qs.append(b)
         for q in qs:
             c.search(sid, q, alt=[dict(l=cps("<"), r=cps(">"))])
         c.search(sid, "")
@@ -1563,6 +1602,8 @@ def gen_table_store_cases(lang, rnd, prop="C02"):
             sid2 = c.new_store(lang)
             for j, (a, b) in enumerate(items[k:k + 6]):
                 c.add(sid2, 100 + j, cps("ta") + b + cps("lo x") + b, j)
+                c.add(sid2, 200 + j, b, j)
+                c.add(sid2, 300 + j, b + cps("x") if j % 2 else cps("x") + b, j)
             for qi, q in enumerate([cps("ta"), cps("x"), [], cps("talo")] + [cps("ta") + b for a, b in items[k:k + 6]][:3]):
                 tag = "pc%d" % qi
                 c.search(sid2, q, tag=tag)
